@@ -172,7 +172,7 @@ int main(int argc, char** argv) {
     else if (t.ab != t.ba) stat = fmt("not-symmetric: IsFungible<A,B>=%d but IsFungible<B,A>=%d for A = %s, B = %s", t.ab, t.ba, p.a, p.b);
     else if ((t.ab || t.ba) && !comp) stat = fmt("fungible-but-incompatible: IsFungible is true but the wire formats differ: A = %s (%s), B = %s (%s) [rules %s]", p.a, schema_text(*A.schema).c_str(), p.b, schema_text(*B.schema).c_str(), p.rules);
     else if (p.expected == 1 && comp && !(t.ab && t.ba)) stat = fmt("documented-pair-not-fungible: A = %s, B = %s built by documented rules [%s] evaluates to false", p.a, p.b, p.rules);
-    else if (t.sig_mismatch > 0) stat = fmt("signature-trait: IsFungible on function signatures built from A = %s and B = %s disagrees with IsFungible<A,B>=%d / IsFungible<B,A>=%d (forms: 1 void(const A&) 2 int(A&&,int) 4 void(const A&)/void(B) 8 A()/B() 16 A(const B&)/B(const A&) 32 arity 64 reversed; mask %d)", p.a, p.b, t.ab, t.ba, t.sig_mismatch);
+    else if (t.sig_mismatch > 0) stat = fmt("signature-trait: IsFungible on function signatures built from A = %s and B = %s disagrees with IsFungible<A,B>=%d / IsFungible<B,A>=%d (forms: 1 void(const A&) 2 int(A&&,int) 4 void(const A&)/void(B) 8 A()/B() 16 A(const B&)/B(const A&) 32 arity 64 reversed 128 fourth-argument 256 third-of-five; mask %d)", p.a, p.b, t.ab, t.ba, t.sig_mismatch);
     else if ((t.protocol_admits != 0) != t.ab) stat = fmt("protocol-admission: IsFungible<A,B>=%d but Protocol<A>::Write/Read %s an argument of type B (A = %s, B = %s)", t.ab, t.protocol_admits ? "admit" : "do not admit", p.a, p.b);
     else if (t.protocol_status > 0) stat = fmt("protocol-write-read-failed: Protocol<A>::Write/Read with B returned an error (%d) for A = %s, B = %s", t.protocol_status, p.a, p.b);
     if (!stat.empty()) { c.rep.fail(stat, ctext, "C09|" + stat.substr(0, stat.find(':')) + "|" + p.rules); continue; }
